@@ -48,8 +48,8 @@ Definition rsr (r : res (list nat * list nat)) : out := match r with Ok (s, k) =
 Definition sumsq (t : tensor Z) : Z := fold_left (fun acc x => (acc + x * x)%Z) (data t) 0%Z.
 Definition rnorm (r : res (tensor Z)) : out := match r with Ok t => ONorm (inject_Z (sumsq t)) | Err => OErr end.
 
-(* _validate_parafac2_tensor on complex input: dot(transpose(P), P) = I as the source has it today, or -- if the source conjugates
-   (candidate repair C03_parafac2_complex_projections) -- the Hermitian test *)
+(* _validate_parafac2_tensor on complex input: the Hermitian test dot(conj(transpose(P)), P) = I (/repo 0c112da) when herm = true - the
+   harness reads from the CURRENT source which test it has; herm = false is the test before 0c112da, dot(transpose(P), P) = I *)
 Definition p2g_validate (herm : bool) w fs ps := if herm then validate_parafac2_h GIops gconj w fs ps else validate_parafac2 GIops w fs ps.
 Definition rtg (r : res (tensor (Z * Z))) : out := match r with Ok t => OTG t | Err => OErr end.
 Definition run (d : decomp) (v : view) : out :=
@@ -70,7 +70,7 @@ Definition run (d : decomp) (v : view) : out :=
   | DTrG cs, VTensor => rtg (tr_to_tensor GIops cs)
   | DTrG cs, VUnfolded m => rtg (tr_to_unfolded GIops cs m)
   | DTrG cs, VVec => rtg (tr_to_vec GIops cs)
-  (* _validate_parafac2_tensor as it is: dot(transpose(P), P) = I, no conjugation (candidate repair: validate_parafac2_h GIops gconj) *)
+  (* _validate_parafac2_tensor as the current source has it (flag h), then the reconstruction behind that answer (C03_parafac2_h_validated) *)
   | DP2G h w fs ps, VValidate => match p2g_validate h w fs ps with Ok (s, r) => OSS s r | Err => OErr end
   | DP2G h w fs ps, VSlice i => rtg (parafac2_to_slice_from GIops (p2g_validate h w fs ps) w fs ps i)
   | DP2G h w fs ps, VTensor => rtg (parafac2_to_tensor_from GIops (p2g_validate h w fs ps) w fs ps)
